@@ -58,6 +58,11 @@ class C14(Prop):
         cfg = counters_cfg(rng, tier)
         if rng.random() < 0.25:
             cfg.kdelay = (-2, -1, 0, 0, 1)       # host / device clock skew: an activity may be stamped BEFORE its launch call (the count dips below 0)
+        if rng.random() < 0.25:
+            # entries without any correlation id on both sides (a launch call whose activity is missing, activities at the head of the trace):
+            # "no id" is not an id, nothing is linked through it
+            cfg.p_nocorr_launch, cfg.p_nocorr_head, cfg.p_drop_kernel = 0.7, 0.6, 0.3
+            cfg.unlinked_head = max(cfg.unlinked_head, 2)
         case = case_from_cfg(rng, cfg)
         n = len(case["ranks"])
         case["req"] = sorted(rng.sample(range(n), rng.randint(1, n)))
